@@ -741,3 +741,164 @@ class SerializeValidates(FnCheck):
         for k, (i, v) in enumerate(appended):
             ex.oblige(st, 'everything_put_into_the_body_was_validated_before', z3.Implies(self.validate.e, z3.Or(
                 *[log[j][1] == v for j in before if j < i]) if [j for j in before if j < i] else z3.BoolVal(False)))
+
+
+# ---------------------------------------------------------------------------------------------------------------
+DE = 'sdc11073.provider.porttypes.descriptioneventserviceimpl'
+PART_FIELDS = ('ModificationType', 'ParentDescriptor', 'SourceMds', 'Descriptor', 'State')
+
+
+@register
+class DescriptionReportBody(FnCheck):
+    id = 'C04.description_modification_report_body'
+    prop = 'C04'
+    target = f'{DE}:DescriptionEventService.mk_description_modification_report_body'
+    field_types = {'Handle': 'str', 'DescriptorHandle': 'str'}
+    doc = ('mk_description_modification_report_body(versions, updated, created, deleted, states): the report is labelled '
+           'with the given version group; the lists are walked in the order updated, created, deleted; every descriptor '
+           '(arbitrary iteration) gets exactly one new part that carries the modification type of the list d came from, '
+           'ParentDescriptor = d.parent_handle, SourceMds = d.source_mds, Descriptor = [d] and as states exactly the '
+           'given states whose DescriptorHandle equals d.Handle (membership; order not modelled)')
+
+    def setup(self, b):
+        st = b.st
+        self.lists = {}
+        for n in ('updated', 'created', 'deleted', 'updated_states'):
+            seq = z3.Const(n + '_seq', SeqVal)
+            self.lists[n] = (_mk_list(b, n, seq), seq)
+            j = z3.Int('j!' + n)
+            st.assume(z3.ForAll([j], z3.Implies(z3.And(0 <= j, j < z3.Length(seq)), z3.And(
+                Val.is_ref(seq[j]), Val.oid(seq[j]) > 0, Val.oid(seq[j]) < 10 ** 9))))
+        self.mvg = b.obj('mdib_version_group')
+        self.dmt = b.obj('DescriptionModificationType', UPDATE=b.any('UPDATE'), CREATE=b.any('CREATE'), DELETE=b.any('DELETE'))
+        msg_types = b.obj('msg_types', DescriptionModificationType=self.dmt)
+        dm = b.obj('data_model', msg_types=msg_types, ns_helper=b.obj('nsh'), msg_names=b.obj('msg_names'))
+        sd = b.obj('sdc_definitions', data_model=dm)
+        self.o = b.obj('self', cls=(DE, 'DescriptionEventService'), _sdc_definitions=sd)
+        b.distinct(self.o, sd, dm, msg_types, self.dmt, self.mvg, *[v[0] for v in self.lists.values()])
+        st.ghost['n_parts'] = z3.IntVal(0)
+        st.ghost['parts'] = z3.Const('parts0', z3.ArraySort(IntS, IntS))
+        st.ghost['log'] = ()
+        self.F0 = {f: st.get_arr('f:' + f) for f in ('parent_handle', 'source_mds', 'Handle', 'DescriptorHandle')}
+        return self.o, [self.mvg, self.lists['updated'][0], self.lists['created'][0], self.lists['deleted'][0],
+                        self.lists['updated_states'][0]], {}
+
+    def callees(self, ex):
+        def mk_report(ex_, st, args, kwargs):
+            r = st.alloc('Report')
+            st.ghost['c:report'] = r.e
+            return r
+
+        def set_group(ex_, st, args, kwargs):
+            st.ghost['log'] += (('set_group', st.ghost.get('c:recv'), st.box(args[0])),)
+            return NONE
+
+        def add_part(ex_, st, args, kwargs):
+            p = st.alloc('ReportPart')
+            st.write_field(p, 'Descriptor', st.new_list())
+            st.write_field(p, 'State', st.new_list())
+            for f in ('ModificationType', 'ParentDescriptor', 'SourceMds'):
+                st.write_field(p, f, NONE)
+            n = st.ghost['n_parts']
+            st.ghost['parts'] = z3.Store(st.ghost['parts'], n, p.e)
+            st.ghost['n_parts'] = n + 1
+            return p
+
+        def as_node(ex_, st, args, kwargs):
+            st.ghost['log'] += (('as_etree_node', st.ghost.get('c:recv'), None),)
+            return st.alloc('Element')
+        return {'*.DescriptionModificationReport': Pure(mk_report, name='msg_types.DescriptionModificationReport()'),
+                '*.set_mdib_version_group': Pure(set_group, name='C04.set_mdib_version_group'),
+                '*.add_report_part': Pure(add_part, name='report.add_report_part() ([F] C04.report_part_api)'),
+                '*.partial_map': Pure(lambda e, s, a, k: s.alloc('nsmap'), name='ns_helper.partial_map'),
+                '*.as_etree_node': Pure(as_node, name='report.as_etree_node')}
+
+    def hooks(self, ex):
+        class H:
+            tracked_names = ()
+
+            def on_call(self, ex_, st, fv, keys, args, kwargs, node):
+                if fv.t == 'method':
+                    st.ghost['c:recv'] = st.box(fv.recv)
+                return None
+
+            @staticmethod
+            def on_loop_havoc(ex_, st, node):
+                st.ghost['c:head_parts'] = st.ghost['n_parts']
+                st.ghost['writes'] = ()
+
+            @staticmethod
+            def on_attr_write(ex_, st, o, attr, val, node):
+                st.ghost['writes'] = st.ghost.get('writes', ()) + ((st.box(o), attr),)
+                return None
+        return H()
+
+    def loops(self, ex):
+        ids = ex.ctx.builtin_class_ids
+
+        def inv(ex_, st, env):
+            if env['_phase'] == 'entry':
+                # which list is walked with which modification type (outer loop over a literal tuple is unrolled)
+                st.ghost['c:phases'] = st.ghost.get('c:phases', ()) + ((env['_seq'], st.box(st.locals['modification_type'])),)
+                return z3.BoolVal(True)
+            if env['_phase'] != 'preserve':
+                return z3.BoolVal(True)
+            ob = lambda n, f: ex_.oblige(st, 'part.' + n, f, kind='loop')   # noqa: E731
+            d = env['_seq'][env['_k'] - 1]
+            n0 = st.ghost['c:head_parts']
+            ob('exactly_one_part_per_descriptor', st.ghost['n_parts'] == n0 + 1)
+            p = z3.Select(st.ghost['parts'], n0)
+            F = lambda n: z3.Select(st.get_arr('f:' + n), p)   # noqa: E731
+            L = st.get_arr('L')
+            ob('modification_type_of_the_list_being_walked', F('ModificationType') == st.box(st.locals['modification_type']))
+            ob('parent_and_source_mds_of_the_descriptor', z3.And(
+                F('ParentDescriptor') == z3.Select(self.F0['parent_handle'], Val.oid(d)),
+                F('SourceMds') == z3.Select(self.F0['source_mds'], Val.oid(d))))
+            ob('holds_exactly_its_descriptor', z3.Select(L, Val.oid(F('Descriptor'))) == z3.Unit(d))
+            states = z3.Select(L, Val.oid(F('State')))
+            us = self.lists['updated_states'][1]
+            hd = Val.s(z3.Select(self.F0['Handle'], Val.oid(d)))
+            dh = lambda x: Val.s(z3.Select(self.F0['DescriptorHandle'], Val.oid(x)))   # noqa: E731
+            i, q = z3.Int('i!ps'), z3.Int('q!ps')
+            flt = st.ghost.get('c:last_filter')
+            if flt is None:
+                ob('states_selected_by_a_filter_over_the_given_states', z3.BoolVal(False))
+                return z3.BoolVal(True)
+            src_of, pos_of = flt['src_of'], flt['pos_of']      # witnesses (skolem functions of the comprehension model)
+            ob('part_states_are_the_selected_states', states == flt['result'])
+            sel = flt['result']
+            ob('states_belong_to_its_descriptor', z3.ForAll([q], z3.Implies(z3.And(0 <= q, q < z3.Length(sel)), z3.And(
+                0 <= src_of(q), src_of(q) < z3.Length(us), sel[q] == us[src_of(q)], dh(us[src_of(q)]) == hd))))
+            ob('has_every_state_of_its_descriptor', z3.ForAll([i], z3.Implies(z3.And(
+                0 <= i, i < z3.Length(us), dh(us[i]) == hd),
+                z3.And(0 <= pos_of(i), pos_of(i) < z3.Length(sel), sel[pos_of(i)] == us[i]))))
+            # frame: the iteration writes members of its own new part only and leaves the argument lists alone
+            ob('writes_only_its_own_part', z3.And(*[t == Val.ref(p) for t, _ in st.ghost.get('writes', ())])
+               if st.ghost.get('writes') else z3.BoolVal(True))
+            ob('argument_lists_untouched', z3.And(*[z3.Select(L, lst.e) == sq for lst, sq in self.lists.values()]))
+            return z3.BoolVal(True)
+        return {1: LoopSpec(inv=inv, havoc_heap=[])}
+
+    def finish(self, ex, st0, outcomes, b):
+        names = {o.name for o in ex.ctx.obligations}
+        ex.oblige(st0, 'every_descriptor_gets_a_part', z3.BoolVal('part.holds_exactly_its_descriptor' in names))
+
+    def post(self, ex, st0, st, outcome, b):
+        if outcome[0] == 'exc':
+            ex.oblige(st, 'never_raises_itself', z3.BoolVal(False), info={'exc': repr(outcome[1])})
+            return
+        dmt = lambda n: z3.Select(st0.get_arr('f:' + n), self.dmt.e)   # noqa: E731
+        phases = st.ghost.get('c:phases', ())
+        want = (('updated', dmt('UPDATE')), ('created', dmt('CREATE')), ('deleted', dmt('DELETE')))
+        ex.oblige(st, 'lists_walked_in_order_updated_created_deleted_with_their_type', z3.And(*[
+            z3.And(phases[k][0] == self.lists[want[k][0]][1], phases[k][1] == want[k][1]) for k in range(3)])
+            if len(phases) == 3 else z3.BoolVal(False))
+        log = st.ghost['log']
+        names = [n for n, _, _ in log]
+        rep = Val.ref(st.ghost['c:report']) if 'c:report' in st.ghost else None
+        ex.oblige(st, 'report_labelled_with_the_given_version_group', z3.And(
+            z3.BoolVal(names.count('set_group') == 1), log[names.index('set_group')][1] == rep,
+            log[names.index('set_group')][2] == Val.ref(self.mvg.e)) if rep is not None and 'set_group' in names else z3.BoolVal(False))
+        ex.oblige(st, 'the_filled_report_is_serialised_last', z3.And(
+            z3.BoolVal(names.count('as_etree_node') == 1 and names[-1] == 'as_etree_node'), log[-1][1] == rep)
+            if rep is not None and names else z3.BoolVal(False))
